@@ -93,7 +93,7 @@ def main():
         "hooks": {
             "guard": "jsonb_verif",
             "enable": "no hooks are needed: every property is observable at the public API boundary; the cfg name is reserved (RUSTFLAGS='--cfg jsonb_verif') and unused",
-            "baseline_off_cmd": "cd /repo && cargo test --workspace --no-fail-fast --offline",
+            "baseline_off_cmd": "REPO_TESTS_VERBOSE=1 /verif/tools/repo_tests.sh /repo",
             "source_commits": [],
             "add_only": True,
         },
